@@ -10,6 +10,27 @@
 let prop_c12 = true   (* failed request changes nothing; truth table of on_duplicate/on_missing; crash points *)
 let prop_c15 = false  (* replay; one entry per applied item; desc = rev asc; type filter; horizon *)
 
+(* Cross-check of extraction: with ORACLE_DUMP=<file> one line per history is appended with what
+   the EXTRACTED models computed, step by step (result class, tuple count, changelog length and a
+   checksum of the observable state, for the memory model and for the sqlite model, plus the
+   statement count; for datastore horizon reads the number of entries and their checksum);
+   bin/coqreplay_c12.py / bin/coqreplay_c15.py recompute the same numbers inside Coq (vm_compute). *)
+let dump_chan = match Sys.getenv_opt "ORACLE_DUMP" with
+  | Some p when p <> "" -> Some (open_out_gen [Open_append; Open_creat] 0o644 p)
+  | _ -> None
+let chk_add acc x = (acc * 31 + x + 7) mod 1000003
+let chk_bytes acc (b : n list) = List.fold_left (fun a x -> chk_add a (int_of_n x)) acc b
+let chk_tuple acc ((k, (n, c)) : otuple) =
+  let a = chk_add (chk_bytes acc k.k_obj) 256 in
+  let a = chk_add (chk_bytes a k.k_rel) 256 in
+  let a = chk_add (chk_bytes a k.k_user) 256 in
+  let a = chk_add (chk_bytes a n) 256 in
+  chk_add (chk_bytes a c) 257
+let chk_entry acc (((op, k), oc) : (cop * key) * ocond) =
+  chk_tuple (chk_add acc (match op with OpWrite -> 0 | OpDelete -> 1)) (k, oc)
+let chk_state (ts : otuple list) (lg : ((cop * key) * ocond) list) =
+  List.fold_left chk_entry (chk_add (List.fold_left chk_tuple 0 ts) 258) lg
+
 let s = coq_to_bytes
 let types = ["doc"; "folder"; "group"]
 let far_future = n_of_int 1000000
@@ -108,6 +129,8 @@ let f _id vs =
   match vs with
   | [I "1"; L ops] ->
     let a = { diffs = []; props = []; knowns = [] } in
+    let dbuf = Buffer.create 256 in
+    let dnum x = Buffer.add_char dbuf ' '; Buffer.add_string dbuf (string_of_int x) in
     let diff fmt = Printf.ksprintf (fun m -> a.diffs <- m :: a.diffs) fmt in
     let ms = ref empty_state in
     let se = ref eng_empty in
@@ -226,6 +249,8 @@ let f _id vs =
         (match parse_obs om_v with
          | Some o ->
            ms := ms';
+           dnum (errcode mres); dnum (List.length (obs_tuples ms')); dnum (List.length (obs_log ms'));
+           dnum (chk_state (obs_tuples ms') (obs_log ms'));
            let bt ty = List.map (fun c -> chg_of (obs_change c)) (read_changes (bytes_to_coq ty) far_future N0 false ms') in
            check "memory" o mres (obs_tuples ms') (obs_log ms') bt pm hm
              [ (trig_partial_match (dels @ wkeys) mem_before, "memory_partial_key_match",
@@ -241,6 +266,8 @@ let f _id vs =
              else (let ((r, e), t) = sql_write_c ondup onmiss dels wrs now (nat_of_int fault) !se in (r, e, t)) in
            se := se';
            let t' = se'.en_comm in
+           dnum (errcode sres); dnum (List.length (sql_obs_tuples t')); dnum (List.length (sql_obs_log t'));
+           dnum (chk_state (sql_obs_tuples t') (sql_obs_log t')); dnum (List.length tr);
            let bt ty = List.map (fun r -> chg_of (lrow_obs r)) (sql_read_changes (bytes_to_coq ty) far_future N0 false t') in
            if mode = 1 && o.trace <> List.map kind_code tr then
              diff "step %d sqlite: statement trace impl=[%s] model=[%s]" i
@@ -269,6 +296,9 @@ let f _id vs =
             | [] -> []
             | (t, asc) :: rest -> if t + hi <= nowi then asc else go rest in
           List.filter (has_type_prefix ty) (go hist) in
+        (let lm = List.map obs_change (read_changes (bytes_to_coq ty) (as_n now) (as_n h) false !ms)
+         and ls = List.map lrow_obs (sql_read_changes (bytes_to_coq ty) (as_n now) (as_n h) false (!se).en_comm) in
+         dnum (List.length lm); dnum (chk_state [] lm); dnum (List.length ls); dnum (chk_state [] ls));
         (match parse_obs om_v with
          | Some o ->
            let m = List.map (fun c -> chg_of (obs_change c)) (read_changes (bytes_to_coq ty) (as_n now) (as_n h) false !ms) in
@@ -323,6 +353,9 @@ let f _id vs =
           toks conss syncs !hs
       | [I "3"] -> ()
       | _ -> diff "step %d: malformed op" i) ops;
+    (match dump_chan with
+     | Some ch -> output_string ch (_id ^ Buffer.contents dbuf ^ "\n"); flush ch
+     | None -> ());
     let cut m = if String.length m > 1500 then String.sub m 0 1500 ^ "..." else m in
     (match List.rev a.diffs, List.rev a.props, List.rev a.knowns with
      (* a failing property predicate (decided on the implementation's answers alone) is the
